@@ -8,12 +8,15 @@ Rule(hd, bd) == [h |-> hd, b |-> bd, t |-> <<"none">>]
 \* predicate is declared temporal
 FactE(p, args) == [h |-> A(p, args), b |-> <<>>, t |-> <<"none">>, ht |-> <<"eternal">>]
 RuleE(hd, bd) == [h |-> hd, b |-> bd, t |-> <<"none">>, ht |-> <<"eternal">>]
+DeclE(p, args) == [h |-> A(p, args), b |-> <<>>, t |-> <<"none">>, decl |-> TRUE]
 L == [ id |-> "lib1",
        files |-> [ f1 |-> << Fact("base", <<Num(1)>>), Fact("base", <<Num(2)>>), Rule(A("p", <<X>>), <<<<"pos", A("base", <<X>>)>>>>) >>,
                    f2 |-> << Rule(A("q", <<X>>), <<<<"pos", A("p", <<X>>)>>, <<"neg", A("blocked", <<X>>)>>>>), Fact("blocked", <<Num(2)>>) >>,
                    f3 |-> << Fact("r", <<Num(1)>>), Fact("r", <<Num(5)>>) >>,
                    \* a fragment that contributes no fact at all (its only rule derives nothing)
                    f5 |-> << Rule(A("n", <<X>>), <<<<"pos", A("n", <<X>>)>>>>) >>,
+                   \* a predicate declared extensional() with one fact: later fragments may add facts to it
+                   f6 |-> << DeclE("station", <<X>>), Fact("station", <<Num(0)>>) >>,
                    f4 |-> << Fact("g", <<Num(1)>>), RuleE(A("always", <<X>>), <<<<"pos", A("g", <<X>>)>>>>) >> ],
        texts |-> [ d1 |-> [valid |-> TRUE,  clauses |-> << Rule(A("s", <<X>>), <<<<"pos", A("r", <<X>>)>>>>) >>],
                    d2 |-> [valid |-> TRUE,  clauses |-> << Fact("s", <<Num(7)>>) >>],
@@ -28,8 +31,10 @@ L == [ id |-> "lib1",
                                                            Rule(A("y", <<X>>), <<<<"pos", A("z", <<Var("Y")>>)>>, <<"eq", X, Ap("fn:div", <<Var("Y"), Num(0)>>)>>>>) >>],
                    d10 |-> [valid |-> TRUE, clauses |-> << FactE("seen", <<Nm("/a")>>) >>],
                    d11 |-> [valid |-> TRUE, clauses |-> << FactE("always", <<Num(2)>>) >>],
+                   d12 |-> [valid |-> TRUE, clauses |-> << Fact("station", <<Num(1)>>) >>],
+                   d13 |-> [valid |-> TRUE, clauses |-> << Rule(A("open", <<X>>), <<<<"pos", A("station", <<X>>)>>>>) >>],
                    d9 |-> [valid |-> TRUE,  clauses |-> << Rule(A("u", <<X>>), <<<<"pos", A("base", <<Var("Y")>>)>>,
                                                                               <<"eq", X, Ap("fn:div", <<Num(6), Ap("fn:minus", <<Var("Y"), Num(1)>>)>>)>>>>) >>] ] ]
-TI == {"d1", "d2", "d3", "d4", "d5", "d6", "d7", "d8", "d9", "d10", "d11"}
-FS == {{"f1"}, {"f2"}, {"f3"}, {"f1", "f3"}, {"f4"}, {"f5"}}
+TI == {"d1", "d2", "d3", "d4", "d5", "d6", "d7", "d8", "d9", "d10", "d11", "d12", "d13"}
+FS == {{"f1"}, {"f2"}, {"f3"}, {"f1", "f3"}, {"f4"}, {"f5"}, {"f6"}}
 =============================================================================
